@@ -4,16 +4,17 @@ from .. import gen
 from .. import model as M
 
 
-def one(ctx, ch0, hist, tag, dupnames=False):
+def one(ctx, ch0, hist, tag, dupnames=False, pair=("NM", "LM")):
     from .. import battery as B
     from .. import forest as F
 
-    recs = [F.Rec(F.materialise(f, ch0)) for f in ("NM", "LM")]
+    recs = [F.Rec(F.materialise(f, ch0)) for f in pair]
+    ctx.count("C18.query_pair.%s" % pair[0])
     if dupnames:
         for r in recs:
             for i, n in enumerate(r.nodes):
                 n.name = "d%d" % (i % 3)  # several nodes (also siblings) share a name
-    case0 = {"state": [list(c) for c in ch0], "history": [[F._jsonable(c), F._jsonable(p)] for c, p in hist]}
+    case0 = {"state": [list(c) for c in ch0], "history": [[F._jsonable(c), F._jsonable(p)] for c, p in hist], "dupnames": dupnames, "pair": list(pair)}
     for step, (call, planspec) in enumerate(hist):
         # the navigation attributes are read on the same objects before every further call, so a memo
         # kept by one of the mixins goes stale where the other recomputes
@@ -25,11 +26,11 @@ def one(ctx, ch0, hist, tag, dupnames=False):
             ctx.violation("C18/queries/%s" % d[0][0].split(".", 1)[-1].split(".")[0], "lockstep-queries", dict(case0, at_step=step),
                           expected={"NM": F._jsonable(d[0][1:2])}, observed={"LM": F._jsonable(d[0][2:]), "query": d[0][0], "more": [x[0] for x in d[1:]]})
             return
-        for r, f in zip(recs, ("NM", "LM")):
+        for r, f in zip(recs, pair):
             F.run_call(r, f, call, F.Plan(planspec), snaps_on=False)
     s0, s1 = recs[0].snapshot(), recs[1].snapshot()
-    case = {"state": [list(c) for c in ch0], "history": [[F._jsonable(c), F._jsonable(p)] for c, p in hist], "dupnames": dupnames}
-    ctx.case((tag, ch0, tuple(hist)), sample=case if ctx.counters["mon.C18.queries"] % 97 == 0 else None)
+    case = {"state": [list(c) for c in ch0], "history": [[F._jsonable(c), F._jsonable(p)] for c, p in hist], "dupnames": dupnames, "pair": list(pair)}
+    ctx.case((tag, pair, ch0, tuple(hist)), sample=case if ctx.counters["mon.C18.queries"] % 97 == 0 else None)
     ctx.count("mon.C18.queries")
     if s0 != s1:
         ctx.violation("C18/queries/state", "lockstep-queries", case, expected=F._jsonable(s0), observed=F._jsonable(s1))
@@ -57,8 +58,9 @@ def run(ctx):
         for ch in gen.ordered_forests(k):
             idx += 1
             if ctx.mine(idx):
-                one(ctx, ch, [], "static")
-    ctx.exhaustive.append("query battery on all ordered forests over k<=4 nodes (NM vs LM)")
+                for pair in F.LOCKSTEP_PAIRS.values():
+                    one(ctx, ch, [], "static", pair=pair)
+    ctx.exhaustive.append("query battery on all ordered forests over k<=4 nodes (NM vs LM, value-equality pair, always-falsy pair)")
     per = max(1, (2000 if T else 160) // ctx.nshards)
     for h in range(per):
         rng = ctx.rng("qhist", h)
@@ -71,11 +73,11 @@ def run(ctx):
             call = eng.random_call(rng, k, par, "LM")
             planspec = ("none",) if rng.random() < 0.7 else ("once", rng.randrange(6))
             hist.append((call, planspec))
-        one(ctx, ch0, hist, "hist", dupnames=(h % 3 == 0))
+        one(ctx, ch0, hist, "hist", dupnames=(h % 3 == 0), pair=list(F.LOCKSTEP_PAIRS.values())[(h // 3) % 4 % 3])
 
 
 def replay(ctx, wit):
     from .forest_engine import tup
 
     c = wit["case"]
-    one(ctx, tup(c["state"]), [(tup(a), tup(b)) for a, b in c["history"]], "replay", dupnames=c.get("dupnames", False))
+    one(ctx, tup(c["state"]), [(tup(a), tup(b)) for a, b in c["history"]], "replay", dupnames=c.get("dupnames", False), pair=tuple(c.get("pair", ("NM", "LM"))))
